@@ -20,21 +20,36 @@ impl<T: Atomic> Atom<T> {
     #[cfg_attr(feature = "log_trace", track_caller)]
     pub fn load(&self) -> T {
         trace!("{} load", core::panic::Location::caller());
+        #[cfg(feature = "verif")]
+        return crate::verif::load(&self.0).into();
+        #[cfg(not(feature = "verif"))]
         self.0.load().into()
     }
     #[cfg_attr(feature = "log_trace", track_caller)]
     pub fn store(&self, v: T) {
         trace!("{} store", core::panic::Location::caller());
+        #[cfg(feature = "verif")]
+        return crate::verif::store(&self.0, v.into());
+        #[cfg(not(feature = "verif"))]
         self.0.store(v.into());
     }
     #[cfg_attr(feature = "log_trace", track_caller)]
     pub fn swap(&self, v: T) -> T {
         trace!("{} swap", core::panic::Location::caller());
+        #[cfg(feature = "verif")]
+        return crate::verif::swap(&self.0, v.into()).into();
+        #[cfg(not(feature = "verif"))]
         self.0.swap(v.into()).into()
     }
     #[cfg_attr(feature = "log_trace", track_caller)]
     pub fn compare_exchange(&self, current: T, new: T) -> Result<T, T> {
         trace!("{} cmpxchg", core::panic::Location::caller());
+        #[cfg(feature = "verif")]
+        return match crate::verif::compare_exchange(&self.0, current.into(), new.into()) {
+            Ok(v) => Ok(v.into()),
+            Err(v) => Err(v.into()),
+        };
+        #[cfg(not(feature = "verif"))]
         match self.0.compare_exchange(current.into(), new.into()) {
             Ok(v) => Ok(v.into()),
             Err(v) => Err(v.into()),
@@ -43,6 +58,12 @@ impl<T: Atomic> Atom<T> {
     #[cfg_attr(feature = "log_trace", track_caller)]
     pub fn compare_exchange_weak(&self, current: T, new: T) -> Result<T, T> {
         trace!("{} cmpxchgw", core::panic::Location::caller());
+        #[cfg(feature = "verif")]
+        return match crate::verif::compare_exchange(&self.0, current.into(), new.into()) {
+            Ok(v) => Ok(v.into()),
+            Err(v) => Err(v.into()),
+        };
+        #[cfg(not(feature = "verif"))]
         match self.0.compare_exchange_weak(current.into(), new.into()) {
             Ok(v) => Ok(v.into()),
             Err(v) => Err(v.into()),
@@ -51,6 +72,12 @@ impl<T: Atomic> Atom<T> {
     #[cfg_attr(feature = "log_trace", track_caller)]
     pub fn try_update<F: FnMut(T) -> Option<T>>(&self, mut f: F) -> Result<T, T> {
         trace!("{} update", core::panic::Location::caller());
+        #[cfg(feature = "verif")]
+        return match crate::verif::try_update(&self.0, |v| f(v.into()).map(Into::into)) {
+            Ok(v) => Ok(v.into()),
+            Err(v) => Err(v.into()),
+        };
+        #[cfg(not(feature = "verif"))]
         match self.0.try_update(|v| f(v.into()).map(Into::into)) {
             Ok(v) => Ok(v.into()),
             Err(v) => Err(v.into()),
@@ -59,6 +86,9 @@ impl<T: Atomic> Atom<T> {
     #[cfg_attr(feature = "log_trace", track_caller)]
     pub fn update<F: FnMut(T) -> T>(&self, mut f: F) -> T {
         trace!("{} update", core::panic::Location::caller());
+        #[cfg(feature = "verif")]
+        return crate::verif::update(&self.0, |v| f(v.into()).into()).into();
+        #[cfg(not(feature = "verif"))]
         self.0.update(|v| f(v.into()).into()).into()
     }
 }
